@@ -1,5 +1,6 @@
 import HioModel.Basic.Sexp
 import HioModel.Sched.Model
+import HioModel.Sched.Runs
 import HioModel.Sched.TimeModel
 /-! Driver: `(run (tock b) (start b) (limit -|b) (fuel n) (pool (spec..)) (specs (spec..)))`
 → `((trace (id kind tymebits [ids])..) (late 0) (flags (id t|f)..) (done b) (tyme bits) (raised -|err) (doers (ids)))`.
@@ -122,12 +123,79 @@ def pairReq (ado : Bool) (fs : List Sexp) : Option Sexp := do
     let b := doistDo pool tock start limit fuel flat
     some (.list [finalS a pool specs, finalS b pool flat])
 
+/-- `(adocancel (cancel j) <fields of run>)`: `doistAdoCancel` — the ado task is cancelled at its (j+1)-th await;
+`raised` prints `cancelled` when the cancellation was delivered -/
+def cancelReq (fs : List Sexp) : Option Sexp := do
+  let j ← nat? (← field1 "cancel" fs)
+  let tock ← fl? (← field1 "tock" fs)
+  let start ← fl? (← field1 "start" fs)
+  let lim ← field1 "limit" fs
+  let limit ← (match lim with | .atom "-" => some none | s => (fl? s).map some)
+  let pool ← (← list? (← field1 "pool" fs)).mapM spec?
+  let specs ← (← list? (← field1 "specs" fs)).mapM spec?
+  let r := doistAdoCancel pool tock start limit j specs
+  let f := r.1
+  let ids := sortNat (Spec.idsL specs ++ Spec.idsL pool)
+  some (.list [
+    tag "trace" [.list ((visible f.evs).map evS)],
+    tag "late" [ofNat 0],
+    tag "flags" [.list (ids.map fun i => .list [ofNat i, ofBool (finalFlag f.evs i)])],
+    tag "done" [ofBool f.done],
+    tag "tyme" [ofFl f.tyme],
+    tag "raised" [sym (if r.2 then "cancelled" else if f.raised then "err" else "-")],
+    tag "doers" [.list (f.doers.map ofNat)]])
+
+/-! ### `(runs ..)`: several do()/ado() calls on one Doist (C05); flags of doers not entered in a run are carried over -/
+
+def hasFlag (evs : List (Ev Float)) (i : Nat) : Bool := evs.any (fun e => e.id == i && e.kind.isFlag)
+
+def lookupFlag (m : List (Nat × Bool)) (i : Nat) : Bool :=
+  match m.find? (fun p => p.1 == i) with | some p => p.2 | none => false
+
+def runSpec? : Sexp → Option (RunSpec Float)
+  | .list (.atom "call" :: fs) => do
+      let st ← field1 "start" fs
+      let start ← (match st with | .atom "-" => some none | s => (fl? s).map some)
+      let lim ← field1 "limit" fs
+      let limit ← (match lim with | .atom "-" => some none | s => (fl? s).map some)
+      let pool ← (← list? (← field1 "pool" fs)).mapM spec?
+      let specs ← (← list? (← field1 "specs" fs)).mapM spec?
+      some ⟨start, limit, pool, specs⟩
+  | _ => none
+
+def runsOut : List (RunSpec Float) → List (Final Float) → List (Nat × Bool) → List Sexp
+  | r :: rs, f :: fs, m =>
+      let ids := sortNat (Spec.idsL r.specs ++ Spec.idsL r.pool)
+      let fl := fun i => if hasFlag f.evs i then finalFlag f.evs i else lookupFlag m i
+      let m' := (ids.map fun i => (i, fl i)) ++ m
+      .list [
+        tag "trace" [.list ((visible f.evs).map evS)],
+        tag "late" [ofNat 0],
+        tag "flags" [.list (ids.map fun i => .list [ofNat i, ofBool (fl i)])],
+        tag "done" [ofBool f.done],
+        tag "tyme" [ofFl f.tyme],
+        tag "raised" [sym (if f.fuelOut then "fuelOut" else if f.raised then "err" else "-")],
+        tag "doers" [.list (f.doers.map ofNat)]] :: runsOut rs fs m'
+  | _, _, _ => []
+
+def runsReq (fs : List Sexp) : Option Sexp := do
+  let tock ← fl? (← field1 "tock" fs)
+  let start ← fl? (← field1 "start" fs)
+  let lim ← field1 "limit" fs
+  let limit ← (match lim with | .atom "-" => some none | s => (fl? s).map some)
+  let fuel ← nat? (← field1 "fuel" fs)
+  let calls ← (← list? (← field1 "calls" fs)).mapM runSpec?
+  some (.list (sym "runs" :: runsOut calls (runSeq tock fuel start limit calls) []))
+
 def handle : Sexp → Sexp
+  | .list (.atom "runs" :: fs) => (runsReq fs).getD (sym "bad-request")
+  | .list [.atom "unmodelled"] => .list [.atom "unmodelled"]   -- implementation-side-only case (see harness/areas/sched.py unmodelled())
   | .list (.atom "run" :: fs) => match runReq fs with
     | some o => o
     | none => sym "bad-request"
   | .list (.atom "flatpair" :: fs) => (pairReq false fs).getD (sym "bad-request")
   | .list (.atom "doado" :: fs) => (pairReq true fs).getD (sym "bad-request")
+  | .list (.atom "adocancel" :: fs) => (cancelReq fs).getD (sym "bad-request")
   | _ => sym "bad-request"
 
 def main : IO Unit := serve handle
